@@ -322,7 +322,8 @@ type Ctx struct {
 	doSeq  int
 	wrapB  *Case // set while an earlier case is re-run after wrapB
 	wrapA  *Case
-	wrapV  *Case // set while a case is re-run with the library's logging at Trace level
+	wrapV  *Case // set while a case is re-run with the library's logging at another level
+	wrapL  int   // that level
 	Reruns int64
 }
 
@@ -475,9 +476,9 @@ func (c *Ctx) Inconclusive(s string) { c.rep.Inconcl = append(c.rep.Inconcl, s) 
 func (c *Ctx) Fail(k *Case, signature, detail string) {
 	if c.wrapV != nil {
 		jk, _ := json.Marshal(c.wrapV)
-		k = &Case{Oracle: WithTrace, Target: c.wrapV.Target, S: []string{string(jk)}}
+		k = &Case{Oracle: WithTrace, Target: c.wrapV.Target, S: []string{string(jk)}, I: []int64{int64(c.wrapL)}}
 		signature = "with-trace-logging:" + signature
-		detail = fmt.Sprintf("the case (%s on %s) passed with the library's default log level; re-run with the logger at Trace level it reports: %s", c.wrapV.Oracle, c.wrapV.Target, detail)
+		detail = fmt.Sprintf("the case (%s on %s) passed with the library's default log level; re-run with the logger at level %d (logrus numbering: 0 panic .. 4 info, 5 debug, 6 trace) it reports: %s", c.wrapV.Oracle, c.wrapV.Target, c.wrapL, detail)
 	} else if c.wrapA != nil {
 		// a case that passed when it ran first complains when re-run after another one
 		jb, _ := json.Marshal(c.wrapB)
@@ -562,7 +563,12 @@ const WithTrace = "with-trace-logging"
 // VerboseHook runs fn with the library's logger at its most verbose level and
 // restores the level afterwards. Set by the monitor package (core knows nothing
 // of the library).
-var VerboseHook func(fn func())
+var VerboseHook func(level int, fn func())
+
+// verboseLevels is the rotation of log levels used by the re-runs: mostly the two verbose
+// ones, now and then a quieter one than the default (code guarded by "level >= debug" but
+// prepared under "level >= trace", or the converse, runs at exactly one of them).
+var verboseLevels = []int{6, 5, 6, 5, 6, 2, 5, 3, 6, 0}
 
 func withTrace(c *Ctx, k *Case) {
 	var a Case
@@ -570,8 +576,12 @@ func withTrace(c *Ctx, k *Case) {
 		c.Inconclusive("malformed with-trace-logging case")
 		return
 	}
-	c.wrapV = &a
-	VerboseHook(func() { c.runOne(&a) })
+	lvl := 6
+	if len(k.I) > 0 {
+		lvl = int(k.I[0])
+	}
+	c.wrapV, c.wrapL = &a, lvl
+	VerboseHook(lvl, func() { c.runOne(&a) })
 	c.wrapV = nil
 }
 
@@ -654,8 +664,8 @@ func (c *Ctx) Do(k *Case) {
 	c.doSeq++
 	if passed && c.doSeq%8 == 3 && VerboseHook != nil {
 		// configuration must not change outcomes: the same case with Trace-level logging
-		c.wrapV = k
-		VerboseHook(func() { c.runOne(k) })
+		c.wrapV, c.wrapL = k, verboseLevels[(c.doSeq/8)%len(verboseLevels)]
+		VerboseHook(c.wrapL, func() { c.runOne(k) })
 		c.wrapV = nil
 		c.rep.Counters["trace_level_reruns"]++
 	}
